@@ -5,6 +5,7 @@ import (
 	"go/token"
 	"go/types"
 	"regexp"
+	"strings"
 
 	"golang.org/x/tools/go/ssa"
 )
@@ -18,6 +19,23 @@ func (x *Exec) funcVarCall(f *frame, in ssa.Instruction, c *ssa.CallCommon, args
 	ld, ok := c.Value.(*ssa.UnOp)
 	if !ok || ld.Op != token.MUL {
 		return Val{}, false
+	}
+	// `opt purecalls <field>`: calls through the function value held in that struct field
+	// have no effect on the modelled heap; their result is arbitrary (recorded as the ghost
+	// value lastval("<field>")). Stated assumption about the closure stored there.
+	if fa, ok := ld.X.(*ssa.FieldAddr); ok && x.fc != nil {
+		fname := deref(fa.X.Type()).Underlying().(*types.Struct).Field(fa.Field).Name()
+		for _, pf := range strings.Fields(x.fc.Opts["purecalls"]) {
+			if pf == fname && c.Signature().Results().Len() == 1 {
+				rt := c.Signature().Results().At(0).Type()
+				r := x.havocValue(st, rt, "fv_"+fname)
+				cn := "Ghost_last_" + fname
+				x.comp(cn, x.X.sortOf(rt))
+				st.heap[cn] = r
+				x.assumed[fmt.Sprintf("%s: calls through the function value in field %q are effect-free (arbitrary result)", x.short, fname)] = true
+				return Val{T: r}, true
+			}
+		}
 	}
 	g, ok := ld.X.(*ssa.Global)
 	if !ok {
